@@ -254,6 +254,23 @@ func (h *c03Harness) generate(steps int, emit func(op string)) {
 				done = append(done, o)
 			}
 		}
+		// look-alike spec: mostly the right source, a destination with a client and exactly the next send sequence
+		fakeSpec := func(c int) string {
+			d := other(c)
+			if rng.Intn(12) == 0 {
+				d = c03Ghost
+			}
+			sq := []string{"n", "n", "n", "n", "n", "f", "p"}[rng.Intn(7)]
+			sr := []string{"s", "s", "s", "s", "s", "o"}[rng.Intn(6)]
+			t := toks[c][rng.Intn(len(toks[c]))]
+			return fmt.Sprintf("%d,%s,%s,%d,%d,%d", d, sq, sr, t.id, 1+rng.Intn(2000), []int{0, 6, 7, 8, 9}[rng.Intn(5)])
+		}
+		if rng.Intn(100) < 5 {
+			// a transaction straight to a contract that emits a PacketSent-shaped log: not the packet contract, so no packet
+			c := rng.Intn(c03NChains)
+			emit(fmt.Sprintf("fakelog %d %d %s", c, []int{0, 0, 0, 8, 9}[rng.Intn(5)], fakeSpec(c)))
+			continue
+		}
 		if rng.Intn(100) < 9 {
 			// ONE transaction with several crossChainCalls (forwarder contract): several PacketSent events in one receipt
 			c := rng.Intn(c03NChains)
@@ -320,6 +337,12 @@ func (h *c03Harness) generate(steps int, emit func(op string)) {
 				call := []string{"n", "n", "n", "n", "po", "pf", "ph"}[rng.Intn(7)]
 				rcv := []int{0, 6, 7, 8, 9}[rng.Intn(5)]
 				legs = append(legs, fmt.Sprintf("S,%d,%d,%s,%d,%d,%d,%s", d, t.id, amt, rcv, ft, fa, call))
+			}
+			if rng.Intn(100) < 40 { // look-alike logs in the same receipt as the genuine sends: before, between, after them
+				for n := 1 + rng.Intn(2); n > 0; n-- {
+					at := []int{0, len(legs), rng.Intn(len(legs) + 1)}[rng.Intn(3)]
+					legs = append(legs[:at], append([]string{"L," + fakeSpec(c)}, legs[at:]...)...)
+				}
 			}
 			emit(fmt.Sprintf("batch %d %d %d %s", c, snd, strict, strings.Join(legs, " ")))
 			continue
